@@ -738,52 +738,163 @@ Definition pf_same_but_calls (a b : pfstate) : bool :=
 Arguments Ascii.eqb : simpl never.
 
 (* ------------------------------------------------------------------ *)
-(* Part 4: ipt_chain_exists parses the listing correctly (the trailing    *)
-(* blank keeps sshuttle-1230 apart from sshuttle-12300)                   *)
+(* Part 4: ipt_chain_exists parses the listing correctly — for ARBITRARY  *)
+(* bytes in the rule text and in the other chains' names: the decode step *)
+(* bytes.decode('ASCII', errors='replace') is total and maps every byte   *)
+(* >= 0x80 to U+FFFD, the sought name is ASCII, and the trailing blank     *)
+(* keeps sshuttle-1230 apart from sshuttle-12300.                          *)
 
 Definition nospace (b : bytes) : bool := forallb (fun a => negb (Ascii.eqb a " "%char)) b.
+
+(* a name the helper looks for: 7-bit (it is 'sshuttle-...%s' % port with a decimal port) and not empty *)
+Definition aname (b : bytes) : bool := forallb ascii7 b && match b with [] => false | _ => true end.
+(* a port as it is printed into chain names: no blank, 7-bit *)
+Definition pname_ok (p : tok) : bool := nospace p && forallb ascii7 p.
+
+Lemma pname_nospace p : pname_ok p = true -> nospace p = true.
+Proof. unfold pname_ok. intro H. apply andb_true_iff in H as [H _]. exact H. Qed.
+Lemma pname_ascii p : pname_ok p = true -> forallb ascii7 p = true.
+Proof. unfold pname_ok. intro H. apply andb_true_iff in H as [_ H]. exact H. Qed.
+
+Lemma aname_app a b : forallb ascii7 a = true -> forallb ascii7 b = true -> a <> [] -> aname (a ++ b) = true.
+Proof.
+  intros Ha Hb Hn. unfold aname. rewrite forallb_app, Ha, Hb. destruct a; [contradiction | reflexivity].
+Qed.
 
 Lemma starts_with_app a p l : starts_with (a ++ p) (a ++ l) = starts_with p l.
 Proof. induction a as [|x a IH]; simpl; [reflexivity|]. rewrite Ascii.eqb_refl. exact IH. Qed.
 
-Lemma starts_with_name name n rest :
-  nospace name = true -> nospace n = true ->
-  starts_with (name ++ [" "%char]) (n ++ " "%char :: rest) = bytes_eqb n name.
+Lemma decode_app a b : decode_replace (a ++ b) = decode_replace a ++ decode_replace b.
+Proof. unfold decode_replace. apply map_app. Qed.
+
+Lemma decode_ascii a : forallb ascii7 a = true -> decode_replace a = ustr a.
 Proof.
-  revert n. induction name as [|x name IH]; intros [|a n] Hn Hm; simpl in *.
-  - symmetry. apply bytes_eqb_refl.
-  - apply andb_true_iff in Hm as [Ha _]. apply negb_true_iff in Ha.
-    rewrite Ascii.eqb_sym. rewrite Ha. symmetry. apply bytes_eqb_neq. discriminate.
-  - apply andb_true_iff in Hn as [Hx _]. apply negb_true_iff in Hx. rewrite Hx.
+  unfold decode_replace, ustr. induction a as [|x a IH]; [reflexivity|]. cbn [forallb map]. intro H.
+  apply andb_true_iff in H as [Hx Ha]. rewrite Hx, (IH Ha). reflexivity.
+Qed.
+
+Lemma ustr_app a b : ustr (a ++ b) = ustr a ++ ustr b.
+Proof. unfold ustr. apply map_app. Qed.
+
+Lemma uchar_eqb_refl c : uchar_eqb c c = true.
+Proof. destruct c; [apply Ascii.eqb_refl | reflexivity]. Qed.
+
+Lemma ustarts_with_app a p l : ustarts_with (a ++ p) (a ++ l) = ustarts_with p l.
+Proof. induction a as [|x a IH]; cbn [app ustarts_with]; [reflexivity|]. rewrite uchar_eqb_refl. exact IH. Qed.
+
+(* the decoded byte a, compared with the code point x of the pattern *)
+Lemma uchar_decode_eqb x a : ascii7 x = true ->
+  uchar_eqb (UA x) (if ascii7 a then UA a else URepl) = Ascii.eqb x a.
+Proof.
+  intro Hx. destruct (ascii7 a) eqn:Ha; cbn [uchar_eqb]; [reflexivity|].
+  symmetry. apply Ascii.eqb_neq. intro E. subst a. congruence.
+Qed.
+
+(* header line of chain n against the pattern for `name` *)
+Lemma ustarts_with_name name n rest :
+  nospace name = true -> forallb ascii7 name = true -> nospace n = true ->
+  ustarts_with (ustr (name ++ [" "%char])) (decode_replace (n ++ " "%char :: rest)) = bytes_eqb n name.
+Proof.
+  revert n. induction name as [|x name IH]; intros [|a n] Hn Ha Hm; cbn [app ustr map decode_replace ustarts_with] in *.
+  - reflexivity.
+  - apply andb_true_iff in Hm as [Hb _]. apply negb_true_iff in Hb.
+    rewrite (uchar_decode_eqb " "%char a eq_refl), Ascii.eqb_sym, Hb.
     symmetry. apply bytes_eqb_neq. discriminate.
-  - apply andb_true_iff in Hn as [Hx Hn]. apply andb_true_iff in Hm as [Ha Hm].
+  - apply andb_true_iff in Hn as [Hx _]. apply negb_true_iff in Hx.
+    apply andb_true_iff in Ha as [Hx7 _].
+    rewrite (uchar_decode_eqb x " "%char Hx7), Hx. symmetry. apply bytes_eqb_neq. discriminate.
+  - apply andb_true_iff in Hn as [Hx Hn]. apply andb_true_iff in Hm as [Hb Hm].
+    apply andb_true_iff in Ha as [Hx7 Ha].
+    rewrite (uchar_decode_eqb x a Hx7).
     destruct (Ascii.eqb x a) eqn:E.
-    + apply Ascii.eqb_eq in E. subst a. rewrite (IH n Hn Hm).
+    + apply Ascii.eqb_eq in E. subst a.
+      change (map (fun a0 : ascii => if ascii7 a0 then UA a0 else URepl) (n ++ " "%char :: rest))
+        with (decode_replace (n ++ " "%char :: rest)).
+      change (map UA (name ++ [" "%char])) with (ustr (name ++ [" "%char])).
+      rewrite (IH n Hn Ha Hm).
       destruct (bytes_eqb n name) eqn:B.
       * apply bytes_eqb_eq in B. subst. symmetry. apply bytes_eqb_refl.
       * symmetry. apply bytes_eqb_neq. apply bytes_eqb_neq in B. congruence.
     + symmetry. apply bytes_eqb_neq. intro H. inversion H; subst. rewrite Ascii.eqb_refl in E. discriminate.
 Qed.
 
+(* a rule line never looks like a header for a non-empty name without blanks: its first word w
+   (the target column) has no blank and is followed by padding; "Chain" + blank + a non-blank
+   cannot be a prefix of w + blanks *)
+Lemma first_word_nospace t : nospace (first_word t) = true.
+Proof.
+  induction t as [|a t IH]; [reflexivity|]. cbn [first_word].
+  destruct (Ascii.eqb a " "%char) eqn:E; [reflexivity|]. cbn [nospace forallb]. rewrite E. exact IH.
+Qed.
+
+Lemma ustarts_with_ruleline A x rest : forall w k tail,
+  nospace A = true -> forallb ascii7 A = true -> nospace w = true ->
+  Ascii.eqb x " "%char = false -> ascii7 x = true ->
+  (1 <= k \/ length w <> length A) ->
+  ustarts_with (ustr (A ++ " "%char :: x :: rest))
+               (decode_replace (w ++ repeat " "%char k ++ " "%char :: tail)) = false.
+Proof.
+  induction A as [|a A IH]; intros [|b w] k tail HA HA7 Hw Hx Hx7 Hk;
+    cbn [app ustr map decode_replace ustarts_with length] in *.
+  - destruct Hk as [Hk|Hk]; [|contradiction]. destruct k as [|k]; [lia|].
+    destruct k as [|k]; cbn [repeat app map ascii7 negb uchar_eqb ustarts_with];
+      change (Ascii.eqb " " " ") with true; cbn iota; rewrite Hx; reflexivity.
+  - apply andb_true_iff in Hw as [Hb _]. apply negb_true_iff in Hb.
+    rewrite (uchar_decode_eqb " "%char b eq_refl), Ascii.eqb_sym, Hb. reflexivity.
+  - apply andb_true_iff in HA as [Ha _]. apply negb_true_iff in Ha. apply andb_true_iff in HA7 as [Ha7 _].
+    destruct k as [|k]; cbn [repeat app map ascii7 negb uchar_eqb]; rewrite Ha; reflexivity.
+  - apply andb_true_iff in HA as [Ha HA]. apply andb_true_iff in HA7 as [Ha7 HA7].
+    apply andb_true_iff in Hw as [Hb Hw].
+    rewrite (uchar_decode_eqb a b Ha7). destruct (Ascii.eqb a b); [|reflexivity].
+    change (map (fun a0 : ascii => if ascii7 a0 then UA a0 else URepl) (w ++ repeat " "%char k ++ " "%char :: tail))
+      with (decode_replace (w ++ repeat " "%char k ++ " "%char :: tail)).
+    change (map UA (A ++ " "%char :: x :: rest)) with (ustr (A ++ " "%char :: x :: rest)).
+    apply IH; try assumption. destruct Hk as [Hk|Hk]; [left; exact Hk | right; lia].
+Qed.
+
+Lemma rule_line_no_header name r :
+  nospace name = true -> aname name = true ->
+  ustarts_with (chain_pattern name) (decode_replace (rule_line r)) = false.
+Proof.
+  intros Hn Ha. unfold aname in Ha. apply andb_true_iff in Ha as [Ha7 Hne].
+  destruct name as [|x name]; [discriminate|].
+  cbn [nospace forallb] in Hn. apply andb_true_iff in Hn as [Hx Hn]. apply negb_true_iff in Hx.
+  cbn [forallb] in Ha7. apply andb_true_iff in Ha7 as [Hx7 Ha7].
+  unfold chain_pattern, rule_line, pad_to.
+  set (w := match jump_target r with Some t => first_word t | None => [] end).
+  assert (Hw : nospace w = true) by (unfold w; destruct (jump_target r); [apply first_word_nospace | reflexivity]).
+  change (bs "Chain " ++ (x :: name) ++ bs " ") with (bs "Chain" ++ " "%char :: x :: (name ++ bs " ")).
+  rewrite <- app_assoc.
+  apply ustarts_with_ruleline; try assumption; try reflexivity.
+  change (length (bs "Chain")) with 5.
+  destruct (Nat.eq_dec (length w) 5) as [E|E]; [left; rewrite E; cbn; lia | right; exact E].
+Qed.
+
 Lemma listing_cons n rs T :
   listing ((n, rs) :: T) =
   [bs "Chain " ++ n ++ bs " (" ++ bs "policy ACCEPT)";
-   bs "target     prot opt source               destination"; []] ++ listing T.
-Proof. reflexivity. Qed.
+   bs "target     prot opt source               destination"] ++ map rule_line rs ++ [[]] ++ listing T.
+Proof. unfold listing. cbn [flat_map fst snd]. rewrite <- !app_assoc. reflexivity. Qed.
 
 Lemma chain_in_listing_spec T name :
-  nospace name = true -> forallb (fun ch : chain => nospace (fst ch)) T = true ->
+  nospace name = true -> aname name = true -> forallb (fun ch : chain => nospace (fst ch)) T = true ->
   chain_in_listing name (listing T) = existsb (fun ch : chain => bytes_eqb (fst ch) name) T.
 Proof.
-  intros Hn HT. unfold chain_in_listing. induction T as [|[n rs] T IH]; [reflexivity|].
+  intros Hn Ha HT. unfold chain_in_listing. induction T as [|[n rs] T IH]; [reflexivity|].
   cbn [forallb fst] in HT. apply andb_true_iff in HT as [Hm HT].
-  rewrite listing_cons. rewrite existsb_app.
-  cbn [existsb fst]. f_equal; [|exact (IH HT)].
-  change (bs "Chain " ++ name ++ bs " ") with (bs "Chain " ++ (name ++ [" "%char])).
-  rewrite starts_with_app.
+  rewrite listing_cons. rewrite !existsb_app. cbn [existsb fst].
+  specialize (IH HT). change (list ascii) with bytes. rewrite IH. rewrite !orb_false_r.
+  match goal with |- context [existsb ?f (map rule_line rs)] =>
+    assert (Hrules : existsb f (map rule_line rs) = false)
+      by (clear - Hn Ha; induction rs as [|r rs IHr]; [reflexivity|]; cbn [map existsb];
+          rewrite (rule_line_no_header name r Hn Ha); exact IHr) end.
+  rewrite Hrules. cbn [orb].
+  change (ustarts_with (chain_pattern name) (decode_replace [])) with false. cbn [orb]. f_equal.
+  unfold chain_pattern. unfold aname in Ha. apply andb_true_iff in Ha as [Ha7 _].
+  rewrite ustr_app. rewrite decode_app. rewrite (decode_ascii (bs "Chain ") eq_refl).
+  rewrite ustarts_with_app.
   change (bs " (" ++ bs "policy ACCEPT)") with (" "%char :: bs "(policy ACCEPT)").
-  rewrite (starts_with_name name n _ Hn Hm).
-  cbn [starts_with app]. change (Ascii.eqb "C" "t") with false. cbn iota. rewrite !orb_false_r. reflexivity.
+  exact (ustarts_with_name name n _ Hn Ha7 Hm).
 Qed.
 
 (* the numeric prefix case spelled out *)
@@ -791,3 +902,159 @@ Example listing_prefix_ports :
   chain_in_listing (nat_chain (bs "1230")) (listing [(nat_chain (bs "12300"), [])]) = false /\
   chain_in_listing (nat_chain (bs "12300")) (listing [(nat_chain (bs "12300"), [])]) = true.
 Proof. vm_compute. split; reflexivity. Qed.
+
+(* ---- the same on the raw output bytes (decode, then split at every line feed) ---- *)
+Definition LF : ascii := "010"%char.
+Definition line_nolf (l : bytes) : bool := forallb (fun a => negb (Ascii.eqb a LF)) l.
+(* no chain name and no rule token contains a line feed *)
+Definition tbl_nolf (T : table) : bool :=
+  forallb (fun ch : chain => line_nolf (fst ch) && forallb (forallb line_nolf) (snd ch)) T.
+
+Lemma usplit_cons d : exists cur rest, usplit d = cur :: rest.
+Proof.
+  induction d as [|c d (cur & rest & E)]; [exists [], []; reflexivity|].
+  cbn [usplit]. rewrite E. destruct (is_lf c); eauto.
+Qed.
+
+Lemma decode_not_lf a : Ascii.eqb a LF = false -> is_lf (if ascii7 a then UA a else URepl) = false.
+Proof.
+  intro H. destruct (ascii7 a); [|reflexivity]. unfold is_lf. cbn [uchar_eqb]. exact H.
+Qed.
+
+Lemma usplit_line l rest : line_nolf l = true ->
+  usplit (decode_replace (l ++ LF :: rest)) = decode_replace l :: usplit (decode_replace rest).
+Proof.
+  induction l as [|a l IH]; intro H.
+  - cbn [app decode_replace map]. change (if ascii7 LF then UA LF else URepl) with (UA LF).
+    cbn [usplit]. change (map (fun a : ascii => if ascii7 a then UA a else URepl) rest) with (decode_replace rest).
+    destruct (usplit_cons (decode_replace rest)) as (cur & r & ->). reflexivity.
+  - cbn [line_nolf forallb] in H. apply andb_true_iff in H as [Ha Hl]. apply negb_true_iff in Ha.
+    cbn [app decode_replace map usplit].
+    change (map (fun a0 : ascii => if ascii7 a0 then UA a0 else URepl) (l ++ LF :: rest))
+      with (decode_replace (l ++ LF :: rest)).
+    rewrite (IH Hl), (decode_not_lf a Ha). reflexivity.
+Qed.
+
+Lemma join_lines_cons l ls : join_lines (l :: ls) = l ++ LF :: join_lines ls.
+Proof. unfold join_lines. cbn [flat_map]. rewrite <- app_assoc. reflexivity. Qed.
+
+Lemma usplit_join lines : forallb line_nolf lines = true ->
+  usplit (decode_replace (join_lines lines)) = map decode_replace lines ++ [[]].
+Proof.
+  induction lines as [|l ls IH]; intro H; [reflexivity|].
+  cbn [forallb] in H. apply andb_true_iff in H as [Hl Hls].
+  rewrite join_lines_cons, (usplit_line l _ Hl), (IH Hls). reflexivity.
+Qed.
+
+(* what linux.py:23-25 computes on the bytes = the line-level test, when no printed line
+   contains a line feed *)
+Lemma chain_in_output_lines name lines :
+  forallb line_nolf lines = true ->
+  chain_in_output name (join_lines lines) = chain_in_listing name lines.
+Proof.
+  intro H. unfold chain_in_output, chain_in_listing. rewrite (usplit_join lines H).
+  rewrite existsb_app. cbn [existsb].
+  change (ustarts_with (chain_pattern name) []) with false. rewrite !orb_false_r.
+  induction lines as [|l ls IH]; [reflexivity|]. cbn [map existsb].
+  cbn [forallb] in H. apply andb_true_iff in H as [_ H]. rewrite (IH H). reflexivity.
+Qed.
+
+Lemma line_nolf_app a b : line_nolf (a ++ b) = line_nolf a && line_nolf b.
+Proof. unfold line_nolf. apply forallb_app. Qed.
+
+Lemma first_word_nolf t : line_nolf t = true -> line_nolf (first_word t) = true.
+Proof.
+  induction t as [|a t IH]; [reflexivity|]. cbn [first_word line_nolf forallb]. intro H.
+  apply andb_true_iff in H as [Ha Ht]. destruct (Ascii.eqb a " "%char); [reflexivity|].
+  cbn [forallb]. rewrite Ha. exact (IH Ht).
+Qed.
+
+Lemma jump_target_in r t : jump_target r = Some t -> In t r.
+Proof.
+  induction r as [|x r IH]; [discriminate|]. cbn [jump_target].
+  destruct (bytes_eqb x (bs "-j")).
+  - destruct r as [|y r']; [discriminate|]. intros [= ->]. right. left. reflexivity.
+  - intro H. right. exact (IH H).
+Qed.
+
+Lemma repeat_blank_nolf k : line_nolf (repeat " "%char k) = true.
+Proof. induction k as [|k IH]; [reflexivity|]. cbn [repeat line_nolf forallb]. exact IH. Qed.
+
+Lemma rule_line_nolf r : forallb line_nolf r = true -> line_nolf (rule_line r) = true.
+Proof.
+  intro H. unfold rule_line, pad_to.
+  rewrite !line_nolf_app. apply andb_true_iff. split; [apply andb_true_iff; split|].
+  - destruct (jump_target r) as [t|] eqn:J; [|reflexivity].
+    apply first_word_nolf. rewrite forallb_forall in H. apply H. exact (jump_target_in r t J).
+  - apply repeat_blank_nolf.
+  - change (line_nolf (" "%char :: bs "0    --  0.0.0.0/0            0.0.0.0/0           " ++
+                       flat_map (fun t : tok => " "%char :: t) r))
+      with (line_nolf ((" "%char :: bs "0    --  0.0.0.0/0            0.0.0.0/0           ") ++
+                       flat_map (fun t : tok => " "%char :: t) r)).
+    rewrite line_nolf_app. apply andb_true_iff. split; [reflexivity|].
+    induction r as [|t r IH]; [reflexivity|]. cbn [forallb] in H. apply andb_true_iff in H as [Ht Hr].
+    cbn [flat_map]. change (line_nolf ((" "%char :: t) ++ flat_map (fun t0 : tok => " "%char :: t0) r) = true).
+    rewrite line_nolf_app. apply andb_true_iff. split; [exact Ht | exact (IH Hr)].
+Qed.
+
+Lemma listing_nolf T : tbl_nolf T = true -> forallb line_nolf (listing T) = true.
+Proof.
+  induction T as [|[n rs] T IH]; intro H; [reflexivity|].
+  cbn [tbl_nolf forallb fst snd] in H. apply andb_true_iff in H as [H HT].
+  apply andb_true_iff in H as [Hn Hrs].
+  rewrite listing_cons, !forallb_app. cbn [forallb].
+  specialize (IH HT). change (list ascii) with bytes. rewrite IH. rewrite !line_nolf_app, Hn. cbn [andb].
+  change (line_nolf (bs "Chain ")) with true.
+  change (line_nolf (bs " (" ++ bs "policy ACCEPT)")) with true.
+  change (line_nolf (bs "target     prot opt source               destination")) with true.
+  change (line_nolf []) with true. cbn [andb]. rewrite andb_true_r.
+  induction rs as [|r rs IHr]; [reflexivity|]. cbn [forallb] in Hrs. apply andb_true_iff in Hrs as [Hr Hrs].
+  cbn [map forallb]. rewrite (rule_line_nolf r Hr). exact (IHr Hrs).
+Qed.
+
+(* exact membership on the bytes, for arbitrary bytes in rule text and foreign chain names
+   except the line feed *)
+Lemma chain_exists_bytes_exact T name :
+  nospace name = true -> aname name = true ->
+  forallb (fun ch : chain => nospace (fst ch)) T = true -> tbl_nolf T = true ->
+  chain_in_output name (join_lines (listing T)) = existsb (fun ch : chain => bytes_eqb (fst ch) name) T.
+Proof.
+  intros Hn Ha HT Hl. rewrite (chain_in_output_lines name _ (listing_nolf T Hl)).
+  exact (chain_in_listing_spec T name Hn Ha HT).
+Qed.
+
+(* F90 — the exception: a foreign rule whose comment contains a line feed prints as two lines
+   and the second one can be a forged chain header; the byte-level parse (what the code does)
+   then reports a chain that does not exist.  The line-level test is not fooled: the session
+   model assumes rule text without line feeds. *)
+Definition forged_comment : tok :=
+  bs "x" ++ [LF] ++ bs "Chain sshuttle-1230 (0 references)".
+Definition forged_rule : rule := [bs "-m"; bs "comment"; bs "--comment"; forged_comment; bs "-j"; bs "RETURN"].
+Definition forged_nat : table :=
+  [(bs "PREROUTING", []); (bs "INPUT", []); (bs "OUTPUT", [forged_rule]); (bs "POSTROUTING", [])].
+
+Lemma listing_lf_refuted :
+  chain_in_output (nat_chain (bs "1230")) (join_lines (listing forged_nat)) = true /\
+  existsb (fun ch : chain => bytes_eqb (fst ch) (nat_chain (bs "1230"))) forged_nat = false /\
+  chain_in_listing (nat_chain (bs "1230")) (listing forged_nat) = false /\
+  tbl_nolf forged_nat = false /\
+  forallb (fun ch : chain => nospace (fst ch)) forged_nat = true.
+Proof. vm_compute. repeat split. Qed.
+
+(* odd bytes that are NOT a line feed are harmless: Latin-1, invalid and valid UTF-8, control
+   characters, even the text of a header, in a comment and in a foreign chain name *)
+Definition odd_comment : tok :=
+  bs "r" ++ ["232"%char] ++ bs "gle caf" ++ ["233"%char; "255"%char; "128"%char; "191"%char; "195"%char; "001"%char; "009"%char;
+             "013"%char; "027"%char; "127"%char; "195"%char; "169"%char; "226"%char; "130"%char; "172"%char] ++
+  bs " Chain sshuttle-1230 (0 references)".
+Definition odd_nat : table :=
+  [(bs "PREROUTING", []); (bs "INPUT", []);
+   (bs "OUTPUT", [[bs "-m"; bs "comment"; bs "--comment"; odd_comment; bs "-j"; bs "Chain"]]);
+   (bs "POSTROUTING", []); (bs "Chain", []); (bs "sshuttle-1230" ++ ["233"%char], []); (bs "caf" ++ ["233"%char], [])].
+
+Example listing_odd_bytes :
+  chain_in_output (nat_chain (bs "1230")) (join_lines (listing odd_nat)) = false /\
+  chain_in_output (bs "Chain") (join_lines (listing odd_nat)) = true /\
+  tbl_nolf odd_nat = true /\ forallb (fun ch : chain => nospace (fst ch)) odd_nat = true /\
+  chain_in_output (nat_chain (bs "1230")) (join_lines (listing (odd_nat ++ [(nat_chain (bs "1230"), [])]))) = true.
+Proof. vm_compute. repeat split. Qed.
